@@ -30,7 +30,10 @@ ENC = {
     "hcaps": ["[NH4]", "[CH5]", "[OH3]", "[BH4]", "C", "N", "=O", ".", "(", ")", "[NH4+]", "[CH3]", "[SiH3]", "[OH2]"],
     # hydrogen counts and charges at the edge of what the two grammars (SMILES bracket atom, SELFIES atom symbol) can
     # spell, under tables whose capacities are large enough for strict mode to accept them
-    "hbig": ["[UH9]", "[UH10]", "[PbH12]", "[NH10]", "[U@@H10]", "[UH010]", "[SH9]", "C", "F", "(", ")", "[N+9]", "[NH09]"],
+    "hbig": ["[UH9]", "[UH10]", "[PbH12]", "[NH10]", "[U@@H10]", "[UH010]", "[SH9]", "C", "F", "(", ")", "[N+9]", "[NH09]",
+             "[1000C]", "[999C]", "[Fe+100]", "[O-100]", "[Fe+99]"],
+    # explicit ':' between upper-case atoms and explicit hydrogen atoms, at the capacity limits
+    "hcolon": ["C", ":C", "N", ":N", "F", "(", ")", "[H]", "=[H]", "[2H]", "[HH]", "=C", "[CH2]", "[NH2]", "=O", "[H+]"],
     "bad": ["C", "C", "1", "=1", "#1", "(", ")", "%", "[", "]", "=", ".", ":", "*", "c", "X", "[Xx]", "%1"],
     "bad2": ["C", "Cl", "[Fe]", "1", ":1", "c", "(", ")", ":C", "=1", ":%12", "%12"],
 }
@@ -282,8 +285,19 @@ def check_C04(tier):
     for k in range(1 if quick else 4):
         alpha = sorted(set(rng.sample(stereo_pool, 12)))
         enc_gen_replay(rep, "stereo_pool%d" % k, alpha, "default", n - q, quick=quick, own=own)
-    corpus_trace(rep, "stereo", quick, own, [relaxed_table()], per_file=(40 if quick else 800),
-                 variants=(3 if quick else 6), flt=has_stereo)
+    # marked ring-closure bonds whose ends are 1 / 17 / 300 atoms apart (one, two, three index symbols)
+    far = []
+    for k in (2, 17, 40, 300):
+        far += ["F/C=C/1" + "C" * k + "/1", "C/1=C/" + "C" * k + "C\\1", "F/C=C/1" + "C" * k + "\\1", "C\\1=C/" + "C" * k + "C/1"]
+    corpus_trace(rep, "stereo", quick, own + ("C10",), [relaxed_table()], per_file=(40 if quick else 800),
+                 variants=(3 if quick else 6), flt=has_stereo, extra=far)
+    # every spelling of a stereo ring symbol is a ring symbol for the decoder (all prefixes x Ring1..3)
+    import checks_dec
+    ring_inputs = []
+    for pre in ("-/", "/-", "//", "/\\", "\\/", "\\\\", "-\\", "\\-", "=", "#", ""):
+        for L in (1, 2, 3):
+            ring_inputs.append(["[C]", "[=C]", "[C]", "[C]", "[C]", "[%sRing%d]" % (pre, L)] + ["[C]"] * (L - 1) + ["[Ring2]", "[O]"])
+    checks_dec.trace_validate(rep, "C04_ring_symbols", de.record_decoder(ring_inputs, "default"), "default")
     # strict=False takes the same path through the stereo code
     enc_gen_replay(rep, "stereo_rings_lax", ["[C@]", "[C@@H]", "C", "1", "2", "3", "(", ")", "F", "N", "/C", "=C"], "default",
                    n + 1 - q, strict=False, quick=quick, own=own, invariants=["SameSenseV", "SameMarksV", "TwoOutcomes"])
@@ -534,6 +548,10 @@ def check_C06(tier):
     for tname in ("default", "charged"):
         enc_gen_replay(rep, "hcaps_%s" % tname, ENC["hcaps"], tabs[tname], n - 2, strict=True, quick=quick, own=own,
                        invariants=["StrictExact", "TwoOutcomes", "OutInGrammar", "SameAtoms", "SameBonds"])
+    # explicit ':' bonds between upper-case atoms (kekulised before the strict check) and explicit hydrogen atoms
+    for tname, tab in (("default", "default"), ("c3", {"C": 3, "F": 1, "N": 3, "H": 1, "O": 2, "?": 8}), ("h0", {"C": 4, "N": 3, "H": 0, "H+1": 0, "O": 2, "F": 1, "?": 8})):
+        enc_gen_replay(rep, "hcolon_%s" % tname, ENC["hcolon"], tab, n - 2 if quick else n - 1, strict=True, quick=quick, own=own,
+                       invariants=["StrictExact", "TwoOutcomes"])
     # aromatic atoms against tight capacities (the strict check sees the kekulised molecule)
     arotabs = {"one": {"C": 1, "N": 1, "O": 1, "S": 1, "N+1": 2, "?": 1}, "two": {"C": 3, "N": 2, "O": 1, "S": 2, "N+1": 3, "?": 2}}
     for tname, tab in arotabs.items():
@@ -767,7 +785,7 @@ def check_C10(tier):
                          "non-trivial = accepted input")
     bad = checks_dec.const_checks(rep, impl=False)
     n = 5 if quick else 6
-    own = ("C10", "C14")
+    own = ("C10", "C14", "C06")     # strict acceptance of an over-capacity molecule also breaks re-encoding stability
     inv = ["OutInGrammar", "WellFormedOut", "ReencodeFixpoint", "TwoOutcomes"]
     enc_gen_replay(rep, "bracket_default", ENC["bracket"], "default", n - 1, quick=quick, own=own, invariants=inv)
     enc_gen_replay(rep, "hcaps_default", ENC["hcaps"], "default", n - 2, quick=quick, own=own, invariants=inv)
